@@ -368,6 +368,7 @@ REG['C18'] = {
     'functions': ['God::get_day_gods', 'God::get_luck', 'Taboo::get_day_recommends / get_day_avoids / get_hour_recommends / get_hour_avoids', 'KitchenGodSteed::*'],
     'L': [
         dict(id='c18_tables', check='c18_tables', range=(-1, 9999), chunks=16, exhaustive=True, domain='720 + 720 pairs, 151 spirits, years 0..9999', clause='total, well-formed, disjoint, consistent'),
+        dict(id='c18_views', check='c18_views', range=(1900, 2155), chunks=32, domain='60 consecutive days x 24 hours in each of 256 years (every day pillar, every hour incl. 23:00)', clause='day and hour views (lunar and sexagenary) return exactly the table entries of their pillar pair; hour lists stay disjoint at 23:00'),
     ],
 }
 
@@ -400,7 +401,7 @@ REG['C10'] = {
     'L': [
         dict(id='c10_history', check='c10_history', range=(1, 999), chunks=32, domain='all digit-collision pairs of years 1..999 in both orders + 40k random requests + memo histories', clause='answer == cache-free constructor, independent of history'),
         dict(id='c10_threads', check='c10_threads', range=(300, 700), chunks=4, domain='4 processes x 16 threads x 8000 overlapping requests', clause='same answers under concurrency'),
-        dict(id='c10_refusals', check='c10_refusals', range=(0, 17), chunks=18, exhaustive=True, domain='18 kinds of invalid request x 3 history positions, one fresh process each', clause='a refused request never changes, blocks or breaks a later valid request'),
+        dict(id='c10_refusals', check='c10_refusals', range=(0, 20), chunks=21, exhaustive=True, domain='21 kinds of refused request (incl. failures inside the strategy-object critical sections) x 3 history positions, one fresh process each', clause='a refused request never changes, blocks or breaks a later valid request'),
     ],
 }
 
